@@ -104,17 +104,24 @@ def confirm(pid, cands, part, report):
         for q, desc in lst[:3]:
             pbs, pblog = K.playback(q, target_name=part.get('target', 'main'))
             match = [v for kind, d, v in pbs if d.strip() == desc.strip()]
-            if not match:
-                continue
-            vals = match[0]
+            # Kani emits no playback test for a check whose failure does not depend on any input;
+            # then any admissible value vector must reproduce it: try the other extracted vectors
+            trials = match + [v for kind, d, v in pbs if d.strip() != desc.strip()] + [[0] * 8, [1] * 8]
             hname = q.split('::')[-1]
-            out_dev, txt_dev = K.native_replay(hname, vals, 'debug')
+            vals, out_dev, txt_dev = None, 'not_reproduced', ''
+            for cand in trials[:6]:
+                out_dev, txt_dev = K.native_replay(hname, cand, 'debug')
+                if out_dev == 'reproduced' and desc.strip()[:40] in txt_dev:
+                    vals = cand
+                    break
+            if vals is None:
+                continue
             out_rel, txt_rel = K.native_replay(hname, vals, 'release')
             rec = {'property': pid, 'key': key, 'harness': q, 'check': desc, 'values': vals,
                    'replay_dev': out_dev, 'replay_release': out_rel,
                    'replay_cmd': '%s --replay <this file>' % os.path.join(VERIF, 'run_check.py'),
                    'native_output': txt_dev[-1500:], 'also_failing': [x[0] for x in lst if x[0] != q]}
-            path = os.path.join(EVID, 'replay', '%s_%s.json' % (pid, re.sub(r'\W+', '_', key or 'main')))
+            path = os.path.join(EVID, 'replay', '%s_kani_%s.json' % (pid, re.sub(r'\W+', '_', key or 'main')))
             json.dump(rec, open(path, 'w'), indent=1)
             report['counterexamples'].append({k: rec[k] for k in ('key', 'harness', 'check', 'values', 'replay_dev', 'replay_release')})
             if out_dev == 'reproduced':
